@@ -18,3 +18,12 @@ Proof. exact lbp_map_is_min_rotation_upto_12. Qed.
 Theorem C19_integral_is_prefix_sum : forall rows w, (forall r, In r rows -> length r = w) ->
   forall i j, (i < length rows)%nat -> (j < w)%nat -> nth j (nth i (integral rows) []) 0 = rect_sum rows i j.
 Proof. exact integral_is_prefix_sum. Qed.
+
+(* LBP mapping for EVERY number of points: the bin of a code is the least among the codes visited by rolling it P times,
+   and it is one of them (the sweep above additionally shows, up to P = 12, that rolling is a cyclic rotation, so rotated codes
+   share the bin) *)
+Theorem C19_lbp_map_is_least_rotation : forall v points,
+  lbp_map v points = fold_left Z.min (tl (rotations (S (Z.to_nat points)) v points)) v /\
+  (forall r, In r (rotations (S (Z.to_nat points)) v points) -> lbp_map v points <= r) /\
+  In (lbp_map v points) (rotations (S (Z.to_nat points)) v points).
+Proof. exact lbp_map_is_least_rotation. Qed.
